@@ -910,7 +910,8 @@ def compare_run(world, runner):
 
 
 def concurrent_flush(world):
-    """F18 (property C04): the UNLOCKED `_flush_some` of handle_write (the I/O
+    """Former finding F18 (repaired by fix 8bcf05e; now a violation wherever it is
+    seen): an UNLOCKED `_flush_some` of handle_write (the I/O
     thread, `requests == []`) runs while another thread is inside a locked flush
     (worker-side send_continue, write_soon): both fetch the same chunk and both
     send it.  Decided on the trace: an I/O-thread socket.send made without
